@@ -68,13 +68,67 @@ def prepare():
     defer.setDebugging(False)
     # the collector never runs by itself (its timing depends on allocation counts of earlier runs in this
     # process); everything imported so far is frozen so that the explicit collection after each run is cheap
+    # every txtorcon module is imported now, so that the snapshot below sees all of them in their import-time state
+    import importlib
+    import pkgutil
+    for m in pkgutil.walk_packages(txtorcon.__path__, 'txtorcon.'):
+        if '.test' in m.name:
+            continue
+        try:
+            importlib.import_module(m.name)
+        except Exception:
+            pass
+    snapshot_globals()
     gc.disable()
     gc.collect()
     gc.freeze()
 
 
+_GLOBAL_SNAPSHOT = []
+
+
+def snapshot_globals():
+    """remember the import-time content of every module-level and class-level dict / list / set of txtorcon, so that
+    each run starts from the state a fresh process has (caches, registries, mutable class attributes - also ones a
+    changed tree adds)"""
+    import copy
+    seen = set()
+
+    def note(container):
+        if id(container) in seen:
+            return
+        seen.add(id(container))
+        try:
+            _GLOBAL_SNAPSHOT.append((container, copy.copy(container)))
+        except Exception:
+            pass
+    for name, mod in sorted(sys.modules.items()):
+        if not (name == 'txtorcon' or name.startswith('txtorcon.')) or mod is None:
+            continue
+        for attr, obj in sorted(vars(mod).items()):
+            if attr.startswith('__'):
+                continue
+            if type(obj) in (dict, list, set):
+                note(obj)
+            elif isinstance(obj, type) and getattr(obj, '__module__', '').startswith('txtorcon'):
+                for cattr, cobj in sorted(vars(obj).items()):
+                    if not cattr.startswith('__') and type(cobj) in (dict, list, set):
+                        note(cobj)
+
+
+def restore_globals():
+    for container, saved in _GLOBAL_SNAPSHOT:
+        if type(container) is list:
+            if container != saved:
+                container[:] = saved
+        elif container != saved:
+            container.clear()
+            container.update(saved)
+
+
 def begin_run(sim):
     """reset txtorcon's process-global state; make `sim` current"""
+    restore_globals()
     CURRENT['sim'] = sim
     sim.logged_errors = []
     sim.already_called_logged = 0
